@@ -58,7 +58,7 @@ def c17(tier):
     else:
         run_s2c(rep, "MC_ScratchDB", SCRATCH_CFG.format(spec="Spec", keys="K3"), R)
         run_s2c(rep, "MC_ScratchDB", SCRATCH_CFG.format(spec="SpecL7", keys="K2").replace("VIEW View", "VIEW ViewHist"), R)
-        run_s2c(rep, "MC_ScratchDB", SCRATCH_CFG.format(spec="Spec", keys="K3"), R, simulate=dict(num=20000, depth=16))
+        run_s2c(rep, "MC_ScratchDB", SCRATCH_CFG.format(spec="Spec", keys="K3"), R, simulate=dict(num=6000, depth=16))
     need(rep, ["aborted-batch", "committed-batch", "deletes-requested", "write-then-delete", "read-raises-KeyError"])
     # code -> spec: generated histories on arbitrary byte keys and values
     import random
@@ -106,7 +106,7 @@ def c11(tier):
         run_s2c(rep, "MC_Fog", FOG_CFG.format(spec="SpecL5", segs="Segs", view="View"), R)
         run_s2c(rep, "MC_Fog", FOG_CFG.format(spec="SpecL4", segs="SegsSmall", view="ViewHist"), R)
         run_s2c(rep, "MC_Fog", FOG_CFG.format(spec="Spec", segs="Segs", view="View"), R,
-                simulate=dict(num=600, depth=10))
+                simulate=dict(num=240, depth=10))
     need(rep, ["complete-fog", "refused-explore", "refused-mark", "query-with-two-acceptable-neighbours",
                "nothing-to-the-right", "mixed-depth-fog"])
     # code -> spec: generated exploration histories over all 16 nibbles
@@ -173,7 +173,7 @@ def c09(tier):
         run_s2c(rep, "MC_FogWalk", walk_cfg(maxlive=3, muts=2), R, timeout=3400)
         run_s2c(rep, "MC_FogWalk", walk_cfg(keys="KWalk2", vals="VLongOnly", maxlive=3, muts=1), R)
         run_s2c(rep, "MC_FogWalk", walk_cfg(keys="KWalk2", vals="VWalk", maxlive=5, muts=4, startall="TRUE"), R,
-                simulate=dict(num=1200, depth=40))
+                simulate=dict(num=600, depth=40))
     need(rep, ["round-through-simulated-node", "stale-cache-entry-dropped", "round-via-frontier-cache",
                "mutation-during-walk", "walk-completed-within-behaviour"])
     return rep.finish()
@@ -217,7 +217,7 @@ def c12(tier):
         run_s2c(rep, "MC_Binary", bin_cfg(spec="SpecL6", keys="KFull", look="LFull", vals="V3", maxlive=4), R)
         run_s2c(rep, "MC_Binary", bin_cfg(spec="SpecL6", view="ViewFull"), R)
         run_s2c(rep, "MC_Binary", bin_cfg(spec="Spec", keys="KFull", look="LFull", vals="V3", maxlive=6,
-                                          inv=BIN12 + ["EmitSt"], emit=""), R, simulate=dict(num=12000, depth=18))
+                                          inv=BIN12 + ["EmitSt"], emit=""), R, simulate=dict(num=4800, depth=16))
     # a database write that raises in the middle of a call (the call raises: root and contents must
     # be unchanged, and the trie must go on working): every behaviour up to a small depth + simulation
     run_s2c(rep, "MC_Binary", bin_cfg(spec="SpecFL4" if tier == "quick" else "SpecFL5", view="ViewHist",
@@ -245,7 +245,7 @@ def c13(tier):
         run_s2c(rep, "MC_Binary", bin_cfg(spec="SpecL6", keys="KFull", look="LFull", vals="V2", maxlive=4, inv=inv,
                                           prop=(), emit=""), R)
         run_s2c(rep, "MC_Binary", bin_cfg(spec="Spec", keys="KFull", look="LFull", vals="V3", maxlive=6, inv=inv,
-                                          prop=(), emit=""), R, simulate=dict(num=2400, depth=14))
+                                          prop=(), emit=""), R, simulate=dict(num=960, depth=14))
     need(rep, ["branch-refused", "witness-refused", "has-kv", "has-branch", "calls:if_branch_valid"])
     return rep.finish()
 
@@ -295,7 +295,7 @@ def c14(tier):
         run_s2c(rep, "MC_SMT", smt_cfg(keys="K8", ops=4), R)
         run_s2c(rep, "MC_SMT", smt_cfg(depth=16, keys="K16", ops=3, trunc="TFull16"), R)
         run_s2c(rep, "MC_SMT", smt_cfg(depth=16, keys="K16", ops=16, trunc="TFull16", emit="INVARIANT EmitSt"), R,
-                simulate=dict(num=2400, depth=16))
+                simulate=dict(num=960, depth=16))
     need(rep, ["non-blank-default", "blank-value-written", "absent-key", "calls:calc_root"])
     smt_traces(rep, tier, {"C14"}, quick_sizes=(1, 2, 20))
     return rep.finish()
@@ -320,7 +320,7 @@ def c15(tier):
         run_s2c(rep, "MC_SMT", smt_cfg(keys="K8", ops=3, trunc="T8"), R)
         run_s2c(rep, "MC_SMT", smt_cfg(depth=16, keys="K16", ops=3, trunc="T16few"), R)
         run_s2c(rep, "MC_SMT", smt_cfg(depth=16, keys="K16", ops=16, trunc="T16few", emit="INVARIANT EmitSt"), R,
-                simulate=dict(num=2400, depth=16))
+                simulate=dict(num=960, depth=16))
     need(rep, ["proof-tracked", "truncated-list-refused", "calls:proof.update"])
     smt_traces(rep, tier, {"C15"}, quick_sizes=(1, 7, 20))
     return rep.finish()
@@ -429,7 +429,7 @@ def c18(tier):
                                           vals="VShare", prune="OnlyPrune")), (), owners=own)
     sim = dict(base, features="FRejectNoop", keys="KFull", look="LFull", vals="VFull", maxlive=4, level=None, emit=None,
                invariants=inv + ["EmitStAll"])
-    ch.run_spec_to_code(rep, ch.cfg(**sim), (), owners=own, simulate=dict(num=24 if q else 480, depth=10 if q else 14))
+    ch.run_spec_to_code(rep, ch.cfg(**sim), (), owners=own, simulate=dict(num=24 if q else 144, depth=10 if q else 12))
     # binary trie and branch helpers
     Rb = "harness.binary:replay_line"
     run_s2c(rep, "MC_Binary", bin_cfg(spec="SpecRL4" if q else "SpecRL5", inv=["Canonical", "MapOK"], prop=()), Rb, owners=own)
